@@ -6,7 +6,7 @@
    the model (scan, the recursive cap branch, the over-award subtraction, the remainder stage). *)
 From Coq Require Import ZArith QArith Qround List Bool Lia Lqa Permutation Arith.
 From VL Require Import Prelude.PyDict Model.GetNBest Model.Quota Model.QuotaDistributor
-     Proofs.Dict_proofs Proofs.GetNBest_proofs Proofs.QOrd Proofs.QD_proofs Proofs.Order_proofs
+     Proofs.Dict_proofs Proofs.GetNBest_proofs Proofs.QOrd Proofs.QD_proofs Proofs.QD2_proofs Proofs.Order_proofs
      Proofs.HA_proofs Proofs.HAPerm_proofs Proofs.LRScale_proofs.
 Import ListNotations.
 Open Scope Z_scope.
@@ -543,6 +543,187 @@ Section Scan.
   Qed.
 End Scan.
 
+(* ---------------------------------------------------------------- dictionaries keyed by candidates and ties *)
+Definition tset_eqb (l m : list C) : bool := forallb (fun c => cmem c m) l && forallb (fun c => cmem c l) m.
+Lemma forallb_perm {A} (f : A -> bool) l l' : Permutation l l' -> forallb f l = forallb f l'.
+Proof.
+  induction 1 as [|x l l' _ IH|x y l|l l' l'' _ IH1 _ IH2]; simpl; try congruence.
+  destruct (f x), (f y); reflexivity.
+Qed.
+Lemma forallb_ext' {A} (f g : A -> bool) l : (forall x, f x = g x) -> forallb f l = forallb g l.
+Proof. intros H. induction l as [|x l IH]; simpl; [reflexivity|]. rewrite H, IH. reflexivity. Qed.
+
+Lemma tset_eqb_perm l l' m m' : Permutation l l' -> Permutation m m' -> tset_eqb l m = tset_eqb l' m'.
+Proof.
+  intros Hl Hm. unfold tset_eqb. f_equal.
+  - rewrite (forallb_perm _ _ _ Hl). apply forallb_ext'. intros c. apply cmem_perm, Hm.
+  - rewrite (forallb_perm _ _ _ Hm). apply forallb_ext'. intros c. apply cmem_perm, Hl.
+Qed.
+
+
+Lemma tset_eqb_refl l : tset_eqb l l = true.
+Proof. unfold tset_eqb. assert (H : forallb (fun c => cmem c l) l = true) by (apply forallb_forall; intros c Hc; apply cmem_In, Hc). rewrite H. reflexivity. Qed.
+Lemma tset_eqb_sym l m : tset_eqb l m = tset_eqb m l.
+Proof. unfold tset_eqb. apply andb_comm. Qed.
+
+Definition tkeys (T : list (list C * Z)) : list (key * Z) := map (fun lz : list C * Z => (KT (fst lz), snd lz)) T.
+(* the shape of `selected` all along _subtract_overaward: the candidates, then the tie keys in order of appearance *)
+Definition nf (P : zdict) (T : list (list C * Z)) : list (key * Z) := kplain P ++ tkeys T.
+
+Lemma plain_of_tkeys T : plain_of (tkeys T) = [].
+Proof. unfold plain_of, tkeys. induction T as [|[l z] T IH]; simpl; [reflexivity|exact IH]. Qed.
+Lemma ties_of_tkeys T : ties_of (tkeys T) = T.
+Proof. unfold ties_of, tkeys. induction T as [|[l z] T IH]; simpl; [reflexivity|]. rewrite IH. reflexivity. Qed.
+Lemma ok_rel_nf P P' T T' : keysnd P -> Permutation P P' -> Forall2 tie_rel T T' -> ok_rel (nf P T) (nf P' T').
+Proof.
+  intros HP HPP HT. unfold ok_rel, nf.
+  rewrite !plain_of_app, !ties_of_app, !plain_of_kplain, !ties_of_kplain, !plain_of_tkeys, !ties_of_tkeys, !app_nil_r. simpl. tauto.
+Qed.
+
+Fixpoint tdec (T : list (list C * Z)) (l : list C) : list (list C * Z) :=
+  match T with
+  | [] => []
+  | (l0, z) :: r => if tset_eqb l l0 then (if z =? 1 then r else (l0, z - 1) :: r) else (l0, z) :: tdec r l
+  end.
+Fixpoint tdist (T : list (list C * Z)) : Prop :=
+  match T with
+  | [] => True
+  | (l0, _) :: r => (forall x, In x r -> tset_eqb l0 (fst x) = false) /\ tdist r
+  end.
+
+Lemma kdec_tkeys_K T c : kdec (tkeys T) (K c) = tkeys T.
+Proof. unfold tkeys. induction T as [|[l z] T IH]; simpl; [reflexivity|]. rewrite IH. reflexivity. Qed.
+Lemma kdec_nf_K P T c : kdec (nf P T) (K c) = nf (dec_key P c) T.
+Proof.
+  unfold nf, kplain. induction P as [|[c' s] P IH]; simpl; [apply kdec_tkeys_K|].
+  destruct (ceqb c c'); [destruct (s =? 1); reflexivity|]. simpl. rewrite IH. reflexivity.
+Qed.
+Lemma kdec_tkeys_T T l : kdec (tkeys T) (KT l) = tkeys (tdec T l).
+Proof.
+  unfold tkeys. induction T as [|[l0 z] T IH]; simpl; [reflexivity|]. fold (tset_eqb l l0).
+  destruct (tset_eqb l l0); [destruct (z =? 1); reflexivity|]. simpl. rewrite IH. reflexivity.
+Qed.
+Lemma kdec_nf_T P T l : kdec (nf P T) (KT l) = nf P (tdec T l).
+Proof.
+  unfold nf, kplain. induction P as [|[c' s] P IH]; simpl; [apply kdec_tkeys_T|]. rewrite IH. reflexivity.
+Qed.
+Lemma fold_kdec_nf l : forall P T, fold_left kdec (map K l) (nf P T) = nf (fold_left dec_key l P) T.
+Proof. induction l as [|c l IH]; intros P T; simpl; [reflexivity|]. rewrite kdec_nf_K. apply IH. Qed.
+Lemma kmem_nf P T l : kmem (nf P T) (KT l) = existsb (fun lz : list C * Z => tset_eqb l (fst lz)) T.
+Proof.
+  unfold kmem, nf, kplain, tkeys. rewrite existsb_app.
+  assert (E1 : existsb (fun kv : key * Z => key_eqb (KT l) (fst kv)) (map (fun kv : C * Z => (K (fst kv), snd kv)) P) = false).
+  { induction P as [|x P IH]; simpl; [reflexivity|exact IH]. }
+  rewrite E1. simpl. induction T as [|[l0 z] T IH]; simpl; [reflexivity|]. rewrite IH. reflexivity.
+Qed.
+Lemma nf_snoc P T l z : nf P T ++ [(KT l, z)] = nf P (T ++ [(l, z)]).
+Proof. unfold nf, tkeys. rewrite map_app, app_assoc. reflexivity. Qed.
+
+Lemma tdec_rel T T' l l' : Forall2 tie_rel T T' -> Permutation l l' -> Forall2 tie_rel (tdec T l) (tdec T' l').
+Proof.
+  intros H Hl. induction H as [|[l0 z] [l0' z'] T T' [Hp Hz] Hrest IH]; simpl; [constructor|].
+  simpl in Hp, Hz. subst z'. rewrite (tset_eqb_perm _ _ _ _ Hl Hp).
+  destruct (tset_eqb l' l0'); [destruct (z =? 1); [exact Hrest|constructor; [split; simpl; auto|exact Hrest]]|].
+  constructor; [split; simpl; auto|exact IH].
+Qed.
+Lemma tdec_incl T l x : In x (tdec T l) -> exists y, In y T /\ fst y = fst x.
+Proof.
+  induction T as [|[l0 z] T IH]; simpl; [tauto|].
+  destruct (tset_eqb l l0).
+  - destruct (z =? 1); [intros H; exists x; auto|]. intros [<-|H]; [exists (l0, z); auto|exists x; auto].
+  - intros [<-|H]; [exists (l0, z); auto|]. destruct (IH H) as (y & Hy & E). exists y. auto.
+Qed.
+Lemma tdist_tdec T l : tdist T -> tdist (tdec T l).
+Proof.
+  induction T as [|[l0 z] T IH]; simpl; [tauto|]. intros [H1 H2].
+  destruct (tset_eqb l l0).
+  - destruct (z =? 1); [exact H2|]. simpl. split; assumption.
+  - simpl. split; [|apply IH, H2]. intros x Hx. destruct (tdec_incl _ _ _ Hx) as (y & Hy & E). rewrite <- E. apply H1, Hy.
+Qed.
+Lemma tdist_snoc T l z : tdist T -> existsb (fun lz : list C * Z => tset_eqb l (fst lz)) T = false -> tdist (T ++ [(l, z)]).
+Proof.
+  induction T as [|[l0 z0] T IH]; simpl; intros HD HE; [split; [intros x []|exact I]|].
+  destruct HD as [H1 H2]. apply orb_false_iff in HE. destruct HE as [E1 E2]. split; [|apply IH; assumption].
+  intros x Hx. apply in_app_or in Hx. destruct Hx as [Hx|[<-|[]]]; [apply H1, Hx|]. simpl. rewrite tset_eqb_sym. exact E1.
+Qed.
+Lemma tdist_rel T T' : Forall2 tie_rel T T' -> tdist T -> tdist T'.
+Proof.
+  intros H. induction H as [|[l0 z] [l0' z'] T T' [Hp _] Hrest IH]; simpl; [tauto|]. simpl in Hp.
+  intros [H1 H2]. split; [|apply IH, H2]. intros x' Hx'.
+  assert (Hex : exists x, In x T /\ Permutation (fst x) (fst x')).
+  { clear -Hrest Hx'. induction Hrest as [|a b T T' [Hab _] _ IHr]; [destruct Hx'|]. destruct Hx' as [<-|Hx'].
+    - exists a. split; [left; reflexivity|exact Hab].
+    - destruct (IHr Hx') as (x & Hx & E). exists x. split; [right; exact Hx|exact E]. }
+  destruct Hex as (x & Hx & E). rewrite <- (tset_eqb_perm _ _ _ _ Hp E). apply H1, Hx.
+Qed.
+Lemma texists_rel T T' l l' : Forall2 tie_rel T T' -> Permutation l l' ->
+  existsb (fun lz : list C * Z => tset_eqb l (fst lz)) T = existsb (fun lz : list C * Z => tset_eqb l' (fst lz)) T'.
+Proof.
+  intros H Hl. induction H as [|x y T T' [Hp _] _ IH]; simpl; [reflexivity|]. rewrite IH, (tset_eqb_perm _ _ _ _ Hl Hp). reflexivity.
+Qed.
+
+(* the tie key of the second run that corresponds to a tie key of the first *)
+Definition tfind (T' : list (list C * Z)) (l : list C) : list C :=
+  match find (fun lz : list C * Z => tset_eqb l (fst lz)) T' with Some lz => fst lz | None => l end.
+Definition kf (T' : list (list C * Z)) (k : key) : key := match k with K c => K c | KT l => KT (tfind T' l) end.
+
+Lemma tfind_head T' l l' z' : Permutation l l' -> tfind ((l', z') :: T') l = l'.
+Proof. intros Hp. unfold tfind. simpl. rewrite <- (tset_eqb_perm l l l l' (Permutation_refl l) Hp), tset_eqb_refl. reflexivity. Qed.
+Lemma tfind_skip T' l l0' z' : tset_eqb l l0' = false -> tfind ((l0', z') :: T') l = tfind T' l.
+Proof. intros E. unfold tfind. simpl. rewrite E. reflexivity. Qed.
+
+Lemma tfind_map T T' : Forall2 tie_rel T T' -> tdist T -> map (fun lz : list C * Z => (tfind T' (fst lz), snd lz)) T = T'.
+Proof.
+  intros H. induction H as [|[l0 z] [l0' z'] T T' [Hp Hz] Hrest IH]; simpl; [reflexivity|]. simpl in Hp, Hz. subst z'.
+  intros [H1 H2]. rewrite (tfind_head T' l0 l0' z Hp). f_equal. etransitivity; [|exact (IH H2)]. apply map_ext_in.
+  intros x Hx. rewrite tfind_skip; [reflexivity|].
+  rewrite <- (tset_eqb_perm (fst x) (fst x) l0 l0' (Permutation_refl _) Hp), tset_eqb_sym. apply H1, Hx.
+Qed.
+Lemma tfind_perm T T' l : Forall2 tie_rel T T' -> tdist T -> In l (map fst T) -> Permutation l (tfind T' l).
+Proof.
+  intros H. induction H as [|[l0 z] [l0' z'] T T' [Hp Hz] Hrest IH]; simpl; [tauto|]. simpl in Hp.
+  intros [H1 H2] [<-|Hin]; [rewrite (tfind_head T' l0 l0' z' Hp); exact Hp|].
+  rewrite tfind_skip; [apply IH; assumption|]. apply in_map_iff in Hin. destruct Hin as (x & <- & Hx).
+  rewrite <- (tset_eqb_perm (fst x) (fst x) l0 l0' (Permutation_refl _) Hp), tset_eqb_sym. apply H1, Hx.
+Qed.
+
+Lemma nodup_app_intro {A} (a b : list A) : NoDup a -> NoDup b -> (forall x, In x a -> ~ In x b) -> NoDup (a ++ b).
+Proof.
+  intros Ha Hb Hd. induction Ha as [|x a Hx _ IH]; simpl; [exact Hb|].
+  constructor; [|apply IH; intros y Hy; apply Hd; right; exact Hy].
+  intros Hi. apply in_app_or in Hi. destruct Hi as [Hi|Hi]; [tauto|]. apply (Hd x (or_introl eq_refl) Hi).
+Qed.
+Lemma tdist_nodup T : tdist T -> NoDup (map fst T).
+Proof.
+  induction T as [|[l0 z] T IH]; simpl; [constructor|]. intros [H1 H2]. constructor; [|apply IH, H2].
+  intros Hi. apply in_map_iff in Hi. destruct Hi as (x & Hx & Hin). specialize (H1 x Hin). rewrite Hx, tset_eqb_refl in H1. discriminate.
+Qed.
+Lemma nf_keys_nodup P T : keysnd P -> tdist T -> NoDup (map fst (nf P T)).
+Proof.
+  intros HP HD. unfold nf, kplain, tkeys. rewrite map_app, !map_map. simpl.
+  apply nodup_app_intro.
+  - rewrite <- (map_map fst K). apply FinFun.Injective_map_NoDup; [intros a b [= E]; exact E|exact HP].
+  - rewrite <- (map_map fst KT). apply FinFun.Injective_map_NoDup; [intros a b [= E]; exact E|apply tdist_nodup, HD].
+  - intros x Hx Hy. apply in_map_iff in Hx. apply in_map_iff in Hy. destruct Hx as (a & <- & _), Hy as (b & Hb & _). discriminate.
+Qed.
+
+Lemma gnb_len1 {X} (l : list (X * Q)) : NoDup (map fst l) -> (length (get_n_best Qle_bool l 1) <= 1)%nat.
+Proof.
+  intros Hn. destruct (gnb_shape l 1%nat (le_n 1) Hn) as (cs & T & k & E & _ & _ & Hlen).
+  rewrite E, app_length, map_length, repeat_length. lia.
+Qed.
+
+Lemma all_plain_none X : all_plain X = None <-> exists l, In (KT l) X.
+Proof.
+  induction X as [|[c|l] X IH]; simpl.
+  - split; [discriminate|intros (l & [])].
+  - destruct (all_plain X) as [l0|].
+    + split; [discriminate|]. intros (l & [H|H]); [discriminate|]. assert (Hn : @None (list C) = None) by reflexivity.
+      destruct IH as [_ IH]. specialize (IH (ex_intro _ l H)). discriminate.
+    + split; [|reflexivity]. intros _. destruct (proj1 IH eq_refl) as (l & Hl). exists l. right. exact Hl.
+  - split; [|reflexivity]. intros _. exists l. left. reflexivity.
+Qed.
+
 (* ---------------------------------------------------------------- the simulation *)
 Definition quota_ext (quota : Q -> Z -> Q) : Prop := forall a b n, (a == b)%Q -> (quota a n == quota b n)%Q.
 
@@ -568,49 +749,107 @@ Section Sim.
     Hypothesis Hpp : Permutation prev prev'.
     Hypothesis Hq : (q' == q)%Q.
 
-    Definition remf (vs : list (C * Q)) (qq : Q) (pv : zdict) (cs : C * Z) : C * Q :=
-      let (c, s) := cs in (c, (- (dget_or vs c 0%Q - qq * inject_Z (s + dget_or pv c 0)%Z))%Q).
+    Definition krems (vs : list (C * Q)) (qq : Q) (pv : zdict) (sel : list (key * Z)) : list (key * Q) :=
+      map (fun ks : key * Z => (fst ks, krem vs qq pv ks)) sel.
 
-    Lemma remf_rel sel : lrel (K := C) Qeq (map (remf votes q prev) sel) (map (remf votes' q' prev') sel).
+    Lemma krems_keys vs qq pv sel : map fst (krems vs qq pv sel) = map fst sel.
+    Proof. unfold krems. rewrite map_map. reflexivity. Qed.
+
+    Lemma krems_rel sel : lrel (K := key) Qeq (krems votes q prev sel) (krems votes' q' prev' sel).
     Proof.
-      induction sel as [|[c s] t IH]; simpl; constructor; [|exact IH].
-      split; [reflexivity|]. simpl.
-      rewrite (dget_or_perm votes votes' c 0%Q Hvnd Hvp), (dget_or_perm prev prev' c 0 Hpnd Hpp), Hq. reflexivity.
+      unfold krems. induction sel as [|[[c|l] s] t IH]; simpl; constructor; try exact IH; (split; [reflexivity|]); unfold krem; cbn [fst snd].
+      - rewrite (dget_or_perm votes votes' c 0%Q Hvnd Hvp), (dget_or_perm prev prev' c 0 Hpnd Hpp), Hq. reflexivity.
+      - rewrite Hq. reflexivity.
     Qed.
 
-    Lemma remf_keys vs qq pv sel : map fst (map (remf vs qq pv) sel) = map fst sel.
-    Proof. rewrite map_map. apply map_ext. intros [c s]. reflexivity. Qed.
+    (* the head of get_n_best(remainders, 1) in the two runs *)
+    Lemma kgnb P P' T T' : keysnd P -> Permutation P P' -> Forall2 tie_rel T T' -> tdist T ->
+      match get_n_best Qle_bool (krems votes q prev (nf P T)) 1 with
+      | [] => get_n_best Qle_bool (krems votes' q' prev' (nf P' T')) 1 = []
+      | Cand k :: _ => (exists rest', get_n_best Qle_bool (krems votes' q' prev' (nf P' T')) 1 = Cand (kf T' k) :: rest') /\
+                       In k (map fst (nf P T))
+      | TieR X :: _ => exists X' rest', get_n_best Qle_bool (krems votes' q' prev' (nf P' T')) 1 = TieR X' :: rest' /\
+                       Permutation (map (kf T') X) X'
+      end.
+    Proof.
+      intros HP HPP HT HD.
+      set (r := krems votes q prev (nf P T)). set (r' := krems votes' q' prev' (nf P' T')).
+      set (r2 := krems votes' q' prev' (nf P T)).
+      assert (Hnd : NoDup (map fst r)) by (unfold r; rewrite krems_keys; apply nf_keys_nodup; assumption).
+      assert (E2 : get_n_best Qle_bool r2 1 = get_n_best Qle_bool r 1).
+      { apply (get_n_best_rel Qle_bool Qle_bool Qeq qrel_sym_emb). apply krems_rel. }
+      set (rr := map (gk (kf T')) r2).
+      assert (Err : get_n_best Qle_bool rr 1 = map (res_map (kf T')) (get_n_best Qle_bool r 1)).
+      { unfold rr. rewrite (get_n_best_gk Qle_bool (kf T')), E2. reflexivity. }
+      assert (Hrr : rr = krems votes' q' prev' (nf P (map (fun lz : list C * Z => (tfind T' (fst lz), snd lz)) T))).
+      { unfold rr, r2, krems, nf, kplain, tkeys. rewrite !map_app, !map_map. f_equal; apply map_ext; intros [a b]; reflexivity. }
+      assert (Hmap : map (fun lz : list C * Z => (tfind T' (fst lz), snd lz)) T = T') by (apply tfind_map; assumption).
+      rewrite Hmap in Hrr.
+      assert (Hperm : Permutation rr r').
+      { rewrite Hrr. unfold r', krems, nf. rewrite !map_app. apply Permutation_app_tail. apply Permutation_map, Permutation_map, HPP. }
+      assert (Hndrr : NoDup (map fst rr)).
+      { rewrite Hrr, krems_keys. apply nf_keys_nodup; [exact HP|]. eapply tdist_rel; eassumption. }
+      destruct (gnb_perm_shape rr r' 1%nat (le_n 1) Hndrr Hperm) as (cs & cs' & X2 & X2' & k & E & E' & Pcs & _ & PX).
+      pose proof (gnb_len1 r Hnd) as Hlen.
+      pose proof (gnb1_head r Hnd) as Hhead.
+      rewrite Err in E. fold r'. rewrite E'.
+      destruct (get_n_best Qle_bool r 1) as [|[k0|X] rest].
+      - simpl in E. destruct cs as [|c0 cs]; [|discriminate]. destruct k as [|k]; [|discriminate].
+        apply Permutation_nil in Pcs. subst cs'. reflexivity.
+      - destruct rest; [|simpl in Hlen; lia]. simpl in E. split.
+        + destruct cs as [|c0 [|c1 cs]]; simpl in E.
+          * destruct k; discriminate.
+          * injection E as <- E. destruct k; [|discriminate]. apply Permutation_length_1_inv in Pcs. subst cs'. exists []. reflexivity.
+          * discriminate.
+        + destruct Hhead as (v & Hv & _). unfold r in Hv. rewrite <- (krems_keys votes q prev). apply in_map_iff. exists (k0, v). auto.
+      - destruct rest; [|simpl in Hlen; lia]. simpl in E.
+        destruct cs as [|c0 cs]; [|discriminate]. apply Permutation_nil in Pcs. subst cs'.
+        destruct k as [|[|k]]; simpl in E; try discriminate. injection E as <-.
+        exists X2', []. split; [reflexivity|]. apply PX. lia.
+    Qed.
+
+    Lemma ksubtract_perm : forall fuel P P' T T' over, keysnd P -> Permutation P P' -> Forall2 tie_rel T T' -> tdist T ->
+      qd_rel (ksubtract fuel votes q prev (nf P T) over) (ksubtract fuel votes' q' prev' (nf P' T') over).
+    Proof.
+      induction fuel as [|f IH]; intros P P' T T' over HP HPP HT HD.
+      - simpl. destruct (over <=? 0); [|exact I]. apply ok_rel_nf; assumption.
+      - cbn [ksubtract]. destruct (over <=? 0); [apply ok_rel_nf; assumption|].
+        fold (krems votes q prev (nf P T)) (krems votes' q' prev' (nf P' T')).
+        pose proof (kgnb P P' T T' HP HPP HT HD) as Hg.
+        destruct (get_n_best Qle_bool (krems votes q prev (nf P T)) 1) as [|[k0|X] rest].
+        + rewrite Hg. exact I.
+        + destruct Hg as [(rest' & E') Hin]. rewrite E'. destruct k0 as [c|l]; cbn [kf].
+          * rewrite !kdec_nf_K. apply IH; [apply dec_key_nodup, HP|apply dec_key_perm; assumption|exact HT|exact HD].
+          * rewrite !kdec_nf_T. apply IH; [exact HP|exact HPP| |apply tdist_tdec, HD].
+            apply tdec_rel; [exact HT|]. apply (tfind_perm T T' l HT HD).
+            unfold nf, kplain, tkeys in Hin. rewrite map_app, !map_map in Hin. apply in_app_or in Hin. destruct Hin as [Hin|Hin].
+            -- apply in_map_iff in Hin. destruct Hin as (x & Hx & _). discriminate.
+            -- apply in_map_iff in Hin. destruct Hin as (x & Hx & Hi). simpl in Hx. injection Hx as <-. apply in_map, Hi.
+        + destruct Hg as (X' & rest' & E' & HX). rewrite E'.
+          destruct (all_plain X) as [l|] eqn:EA.
+          * apply all_plain_some in EA. subst X.
+            rewrite map_map in HX. cbn [kf] in HX. apply Permutation_sym, Permutation_map_inv in HX. destruct HX as (l' & -> & Hl).
+            rewrite all_plain_map, !kmem_nf, <- (texists_rel T T' l l' HT Hl).
+            destruct (existsb (fun lz : list C * Z => tset_eqb l (fst lz)) T) eqn:EM.
+            -- rewrite !kdec_nf_T. apply IH; [exact HP|exact HPP|apply tdec_rel; assumption|apply tdist_tdec, HD].
+            -- rewrite !fold_kdec_nf, !nf_snoc. apply IH.
+               ++ apply fold_op_nodup; [apply dec_key_nodup|exact HP].
+               ++ apply fold_op_perm; try assumption; [apply dec_key_nodup|apply dec_key_perm|apply dec_key_comm].
+               ++ apply Forall2_app; [exact HT|]. constructor; [|constructor]. split; simpl; [exact Hl|]. rewrite (Permutation_length Hl). reflexivity.
+               ++ apply tdist_snoc; assumption.
+          * assert (EA' : all_plain X' = None).
+            { apply all_plain_none. apply all_plain_none in EA. destruct EA as (l & Hl).
+              exists (tfind T' l). apply (Permutation_in _ HX). apply in_map_iff. exists (KT l). split; [reflexivity|exact Hl]. }
+            rewrite EA'. exact I.
+    Qed.
 
     Lemma subtract_perm : forall fuel sel sel' over, keysnd sel -> Permutation sel sel' ->
       qd_rel (subtract fuel votes q prev sel over) (subtract fuel votes' q' prev' sel' over).
     Proof.
-      induction fuel as [|f IH]; intros sel sel' over Hs Hp.
-      - simpl. destruct (over <=? 0); [|exact I]. apply ok_rel_kplain; assumption.
-      - cbn [QuotaDistributor.subtract]. destruct (over <=? 0); [apply ok_rel_kplain; assumption|].
-        fold (remf votes q prev). fold (remf votes' q' prev').
-        rewrite <- (get_n_best_rel Qle_bool Qle_bool Qeq qrel_sym_emb _ _ 1%nat (remf_rel sel)).
-        assert (Hnd2 : NoDup (map fst (map (remf votes' q' prev') sel))) by (rewrite remf_keys; exact Hs).
-        assert (Hp2 : Permutation (map (remf votes' q' prev') sel) (map (remf votes' q' prev') sel')) by (apply Permutation_map, Hp).
-        destruct (gnb_perm_shape _ _ 1%nat (le_n 1) Hnd2 Hp2) as (cs & cs' & T & T' & k & E & E' & Pcs & Ncs & PT).
-        destruct (gnb_shape _ 1%nat (le_n 1) Hnd2) as (cs0 & T0 & k0 & E0 & _ & _ & Hlen).
-        assert (Hshape : (length cs + k <= 1)%nat).
-        { assert (L : length (map Cand cs ++ repeat (TieR T) k) = length (map Cand cs0 ++ repeat (TieR T0) k0)) by (rewrite <- E, <- E0; reflexivity).
-          rewrite !app_length, !map_length, !repeat_length in L. lia. }
-        rewrite E, E'. clear E E' E0.
-        destruct cs as [|c [|c2 cs]].
-        + apply Permutation_nil in Pcs. subst cs'. destruct k as [|k]; simpl; [exact I|].
-          specialize (PT ltac:(lia)).
-          destruct (over - 1 <=? 0); [|exact I].
-          assert (Hs1 : keysnd (fold_left dec_key T sel)) by (apply fold_op_nodup; [apply dec_key_nodup|exact Hs]).
-          assert (Hp1 : Permutation (fold_left dec_key T sel) (fold_left dec_key T' sel')).
-          { apply fold_op_perm; try assumption; [apply dec_key_nodup|apply dec_key_perm|apply dec_key_comm]. }
-          cbn [qd_rel]. unfold ok_rel. fold (kplain (fold_left dec_key T sel)). fold (kplain (fold_left dec_key T' sel')).
-          rewrite !plain_of_app, !ties_of_app, !plain_of_kplain, !ties_of_kplain. simpl. rewrite !app_nil_r.
-          split; [exact Hs1|]. split; [exact Hp1|]. constructor; [|constructor].
-          split; simpl; [exact PT|]. rewrite (Permutation_length PT). reflexivity.
-        + apply Permutation_length_1_inv in Pcs. subst cs'. simpl.
-          apply IH; [apply dec_key_nodup, Hs|apply dec_key_perm; assumption].
-        + simpl in Hshape. lia.
+      intros fuel sel sel' over Hs Hp. rewrite !subtract_is_ksubtract.
+      change (plain sel) with (kplain sel). change (plain sel') with (kplain sel').
+      rewrite <- (app_nil_r (kplain sel)), <- (app_nil_r (kplain sel')).
+      apply (ksubtract_perm fuel sel sel' [] [] over Hs Hp); constructor.
     Qed.
   End Fixed.
 
@@ -736,27 +975,11 @@ Section Sim.
     | _, _ => False
     end.
 
-  Definition tset_eqb (l m : list C) : bool := forallb (fun c => cmem c m) l && forallb (fun c => cmem c l) m.
   Fixpoint tincr (t : list (list C * Z)) (l : list C) : list (list C * Z) :=
     match t with
     | [] => [(l, 1)]
     | (l0, z) :: r => if tset_eqb l l0 then (l0, z + 1) :: r else (l0, z) :: tincr r l
     end.
-
-  Lemma forallb_perm {A} (f : A -> bool) l l' : Permutation l l' -> forallb f l = forallb f l'.
-  Proof.
-    induction 1 as [|x l l' _ IH|x y l|l l' l'' _ IH1 _ IH2]; simpl; try congruence.
-    destruct (f x), (f y); reflexivity.
-  Qed.
-  Lemma forallb_ext' {A} (f g : A -> bool) l : (forall x, f x = g x) -> forallb f l = forallb g l.
-  Proof. intros H. induction l as [|x l IH]; simpl; [reflexivity|]. rewrite H, IH. reflexivity. Qed.
-
-  Lemma tset_eqb_perm l l' m m' : Permutation l l' -> Permutation m m' -> tset_eqb l m = tset_eqb l' m'.
-  Proof.
-    intros Hl Hm. unfold tset_eqb. f_equal.
-    - rewrite (forallb_perm _ _ _ Hl). apply forallb_ext'. intros c. apply cmem_perm, Hm.
-    - rewrite (forallb_perm _ _ _ Hm). apply forallb_ext'. intros c. apply cmem_perm, Hl.
-  Qed.
 
   Lemma tincr_rel t t' l l' : Forall2 tie_rel t t' -> Permutation l l' -> Forall2 tie_rel (tincr t l) (tincr t' l').
   Proof.
